@@ -240,6 +240,11 @@ func opValue(tag, i int, op memOp) expr.Expr {
 		return mk(op.W) // replaced by the caller
 	case "sym":
 		return expr.NewRegLoad(expr.Key(fmt.Sprintf("s%d", (tag+i)%10)), expr.Width(op.W))
+	case "symsame":
+		// the SAME 8-byte register whatever the position in the history and the write width
+		return expr.NewRegLoad("sx", 8)
+	case "constsame":
+		return expr.NewConst([]byte{0x91, 0x92, 0x93, 0x94}, 4)
 	case "symwide":
 		return expr.NewRegLoad(expr.Key(fmt.Sprintf("s%d", (tag+i)%10)), 8)
 	case "zero":
@@ -787,13 +792,14 @@ func memDo(r *eng.Run, c memCase) {
 func init() {
 	checks["C14"] = eng.Check{
 		Hist:        true,
-		Rule:        "Sparse memory: every history (no state merging) of <=2 stores over the full alphabet (addr 0..5 x width 1..4 x value kinds {exact constant, symbolic register, value narrower than the write, value wider than the write, wide symbolic, a narrowing width gadget over a wide register, a binary expression, an all-zero constant}) and of 3 stores (quick: addr 0..4, widths 1..4, kinds const/sym; thorough: full alphabet; thorough also 4 stores over addr 0..3, widths 1..3, const/sym; plus histories of 2..3 stores ending with a store of exactly the bytes the memory already holds there), on a fresh real Sparse each; after each history every Load(a,w), Missing(a,w) for a in 0..8, w in 1..4 and Blocks() compared with a byte map (values under 3 valuations); digests of all values handed in / returned mid-history re-checked at the end. Between the stores of a history the memory is read as well (Load and Missing at the narrowest and widest width from every address, Blocks()), so that anything cached by a read has to survive the next store; histories of 2 stores are additionally run with no reads between the stores and with no reads before the end; wide loads (every width 1..72) over five layouts of many blocks (incl. zero constants and constants whose low half is zero). Repeated with all addresses shifted to just below 2^64 (the 2-store histories with an additional block near address 0, i.e. blocks in both halves of the address space); single Load / Missing / Store calls on the ranges of 1, 2 and 4 bytes that end exactly at 2^64. Non-trivial = history of >=2 stores.",
+		Rule:        "Sparse memory: every history (no state merging) of <=2 stores over the full alphabet (addr 0..5 x width 1..4 x value kinds {exact constant, symbolic register, value narrower than the write, value wider than the write, wide symbolic, a narrowing width gadget over a wide register, a binary expression, an all-zero constant}) and of 3 stores (quick: addr 0..4, widths 1..4, kinds const/sym; thorough: full alphabet; thorough also 4 stores over addr 0..3, widths 1..3, const/sym; plus histories of 2..3 stores ending with a store of exactly the bytes the memory already holds there; plus every history of 3 stores whose first and last store write ONE expression — the same 8-byte register or the same 4-byte constant — at any address 0..4 and width 1..4 with any such store or a constant store in between), on a fresh real Sparse each; after each history every Load(a,w), Missing(a,w) for a in 0..8, w in 1..4 and Blocks() compared with a byte map (values under 3 valuations); digests of all values handed in / returned mid-history re-checked at the end. Between the stores of a history the memory is read as well (Load and Missing at the narrowest and widest width from every address, Blocks()), so that anything cached by a read has to survive the next store; histories of 2 stores are additionally run with no reads between the stores and with no reads before the end; wide loads (every width 1..72) over five layouts of many blocks (incl. zero constants and constants whose low half is zero). Repeated with all addresses shifted to just below 2^64 (the 2-store histories with an additional block near address 0, i.e. blocks in both halves of the address space); single Load / Missing / Store calls on the ranges of 1, 2 and 4 bytes that end exactly at 2^64. Non-trivial = history of >=2 stores.",
 		Assumptions: []string{"address ranges do not wrap around 2^64", "write widths 1..4 (wider writes are covered by a few hand-picked wide cases only)"},
 		Run: func(r *eng.Run) {
 			full := memAlpha(seq(0, 5), seq(1, 4), []string{"const", "sym", "narrow", "wide", "symwide", "gadgetnarrow", "binsym", "zero"})
 			small := memAlpha(seq(0, 4), seq(1, 4), []string{"const", "sym"})
 			same := memAlpha(seq(0, 4), seq(1, 4), []string{"const", "sym", "samecopy"})
 			tiny := memAlpha(seq(0, 3), seq(1, 3), []string{"const", "sym"})
+			again := memAlpha(seq(0, 4), seq(1, 4), []string{"const", "symsame", "constsame"})
 			r.Note("alphabet full=%d small=%d tiny=%d", len(full), len(small), len(tiny))
 			for _, top := range []bool{false, true} {
 				top := top
@@ -804,6 +810,13 @@ func init() {
 				// stores of the value the memory already holds (no-op stores), last in the history
 				histories(r, same, 3, func(ops []memOp) {
 					if n := len(ops); n >= 2 && ops[n-1].Kind == "samecopy" && ops[0].Kind != "samecopy" && (n == 2 || ops[1].Kind != "samecopy") {
+						memDo(r, memCase{Mem: "sparse", Ops: append([]memOp{}, ops...), Top: top, MaxA: 8, MaxW: 4})
+					}
+				})
+				// one expression written twice (at other widths and addresses) with another store in
+				// between: what is left of its first write is not what its second write puts there
+				histories(r, again, 3, func(ops []memOp) {
+					if len(ops) == 3 && ops[0].Kind != "const" && ops[2].Kind != "const" {
 						memDo(r, memCase{Mem: "sparse", Ops: append([]memOp{}, ops...), Top: top, MaxA: 8, MaxW: 4})
 					}
 				})
